@@ -72,6 +72,7 @@ type gen struct {
 	loopNalloc map[*ssa.BasicBlock]string
 	loopLocalStores map[*ssa.BasicBlock]map[*ssa.Alloc]bool
 	callReach map[string]string
+	callBlock map[string]*ssa.BasicBlock // block of the k-th call of a callee (for called(): a dominating call was executed)
 	debugVars map[*ssa.BasicBlock]map[string]T
 	loopOrd   map[*ssa.BasicBlock]int
 	closures  map[ssa.Value]*ssa.MakeClosure
